@@ -407,12 +407,13 @@ func run(c *fw.Case) {
 				c.Violation("C15a/bitmap-evaluator-differs-from-oracle", fmt.Sprintf("expression %q: RoaringBitmapsApply selects %s, the harness evaluator selects %s", pe.src, setString(got), setString(results[ei].oracle)), describe(pe, a))
 				return
 			}
-			if firstBitmap[ei] == nil {
+			first := firstBitmap[ei] == nil
+			if first {
 				firstBitmap[ei] = bm
 			}
 
-			// the block index built from it, as pipeline.BuildModuleExecutors does
-			if step < len(exprs)*2 {
+			// the block index built from it, as pipeline.BuildModuleExecutors does (once per expression and assignment)
+			if first {
 				pre := index.NewBlockIndex(pe.expr, "idx", bm)
 				abs := index.NewBlockIndex(pe.expr, "idx", nil)
 				if !pre.Precomputed() || abs.Precomputed() {
